@@ -38,7 +38,7 @@ def floors(tier):
     return {"evaluations": 100 if q else 1500, "distinct_nontrivial": 40 if q else 600, "parallel_runs": 100 if q else 1500,
             "set:completion_orders": 3, "workers:1": 5, "workers:2": 5, "workers:3": 5, "workers:5": 5, "workers:16": 5, "workers:len+7": 5,
             "cli_triples": 2 if q else 12, "len>=50": 6 if q else 100, "len=50": 2 if q else 30, "len=49": 2 if q else 30,
-            "monitor:_extend_path_sections": 200 if q else 3000, "kernels_with_label_comment_directive_lines": 1 if q else 30}
+            "monitor:_extend_path_sections": 200 if q else 3000, "kernels_with_label_comment_directive_lines": 1 if q else 30, "small_dense_kernels": 30 if q else 500, "reconvergent_kernels": 8 if q else 150}
 
 
 def plan(tier, seed):
@@ -46,6 +46,10 @@ def plan(tier, seed):
     specs = []
     for i in range(12 if q else 32):
         specs.append({"kind": "gen", "isa": "x86" if i % 2 == 0 else "aarch64", "kernels": 1 if q else 6, "delay_seeds": 2 if q else 6})
+    # short, dense kernels (forking and re-joining chains): the single-process search is the one normally used for them, the
+    # multi-process one is forced for comparison
+    for i in range(4 if q else 16):
+        specs.append({"kind": "gen", "isa": "x86" if i % 2 == 0 else "aarch64", "kernels": 10 if q else 40, "delay_seeds": 1, "small": True})
     for i in range(2 if q else 6):
         specs.append({"kind": "cli", "isa": "x86" if i % 2 == 0 else "aarch64", "triples": 1 if q else 2})
     return specs
@@ -122,6 +126,59 @@ def make_kernel(krng, isa, vocab, target_len, extras=0):
     return lines
 
 
+def reconvergent_kernel(krng, isa, vocab):
+    """A recurrence with independent by-passes that re-join at different instructions (u = f(acc); b = f(acc, u); v = f(b);
+    acc = f(b, v) and a second stage of the same kind): several cycles share prefixes and differ in the by-passes taken.
+    Built from one register-only form of the vocabulary; None when the vocabulary has no usable form."""
+    cands = []
+    for v in vocab:
+        ops = v["ops"]
+        if not ops or any(o["kind"] != "reg" for o in ops) or v["zero"] or v["name"][:2] in ("hr", "hn", "fw", "fr") or len(set(o["cls"] for o in ops)) != 1:
+            continue
+        dsts = [j for j, o in enumerate(ops) if "d" in o["role"]]
+        pure = [j for j, o in enumerate(ops) if o["role"] == "s"]
+        if len(dsts) != 1 or not pure:
+            continue
+        if len(pure) >= 2 or ops[dsts[0]]["role"] == "sd":
+            cands.append((v, dsts[0], pure))
+    if not cands:
+        return None
+    form, dj, pure = krng.choice(cands)
+    cls = form["ops"][0]["cls"]
+    if isa == "x86":
+        names = (["rax", "rbx", "rcx", "rdx", "rsi", "rdi", "r8", "r9", "r10", "r11"] if cls == "g" else ["xmm%d" % i for i in range(10)])
+    else:
+        names = (["x%d" % i for i in range(10)] if cls == "g" else ["d%d" % i for i in range(10)])
+    krng.shuffle(names)
+    acc, u, b, v, w, k1, k2 = names[:7]
+    out = []
+
+    def assign(dst, srcs):
+        if len(pure) >= 2:
+            groups = [srcs]
+        else:
+            groups = [[x] for x in srcs]  # one source per instruction, the destination is read as well ('sd')
+        for g in groups:
+            regs, it = [], 0
+            for j, o in enumerate(form["ops"]):
+                if j == dj:
+                    regs.append(dst)
+                else:
+                    regs.append(g[it % len(g)])
+                    it += 1
+            out.append(D.instantiate(krng, isa, form, None, regs=regs)["text"])
+
+    assign(u, [acc, k1])
+    assign(b, [acc, u])
+    assign(v, [b, k2])
+    if krng.random() < 0.5:
+        assign(w, [b, v])
+        assign(acc, [w, v])
+    else:
+        assign(acc, [b, v])
+    return out
+
+
 def run_lcd(isa, path, ipath, arch, text, threshold, ncores):
     from osaca.parser import get_parser
     from osaca.semantics import ArchSemantics, MachineModel, kernel_dg
@@ -146,17 +203,29 @@ def run_lcd(isa, path, ipath, arch, text, threshold, ncores):
 TARGETS = [50, 0, 49, 51, 64, 90]
 
 
-def gen_case(isa, vocab, path, ipath, mseed, kseed, delay_seeds, probe, R, target=None):
+def gen_case(isa, vocab, path, ipath, mseed, kseed, delay_seeds, probe, R, target=None, small=False):
     krng = random.Random(kseed)
     if target is None:
         target = krng.choice(TARGETS)
     extras = krng.choice([0, 0, 3, 5, 9]) if target else 0
-    lines = make_kernel(krng, isa, vocab, target, extras)
+    if small:
+        extras = 0
+        lines = reconvergent_kernel(krng, isa, vocab) if krng.random() < 0.5 else None
+        if lines:
+            R.count("reconvergent_kernels")
+            # a few unrelated lines around it
+            more = [i["text"] for i in c05.dense_kernel(krng, isa, vocab, False)][: krng.randint(0, 4)]
+            lines = more[: len(more) // 2] + lines + more[len(more) // 2:]
+        else:
+            lines = [i["text"] for i in c05.dense_kernel(krng, isa, vocab, False)][:16]
+        R.count("small_dense_kernels")
+    else:
+        lines = make_kernel(krng, isa, vocab, target, extras)
     text = "\n".join(lines) + "\n"
     n = len(lines)
     if extras:
         R.count("kernels_with_label_comment_directive_lines")
-    base_case = {"kind": "gen", "isa": isa, "model_seed": mseed, "kernel_seed": kseed, "lines": n, "target": target}
+    base_case = {"kind": "gen", "isa": isa, "model_seed": mseed, "kernel_seed": kseed, "lines": n, "target": target, "small": small}
     try:
         with time_limit(300):
             seq, _, nforms = run_lcd(isa, path, ipath, None, text, 10 ** 9, None)
@@ -166,7 +235,7 @@ def gen_case(isa, vocab, path, ipath, mseed, kseed, delay_seeds, probe, R, targe
             if n >= 50:
                 R.count("len>=50")
             R.count("len=%d" % n if n in (49, 50, 51) else "len:other")
-            for w in WORKERS:
+            for w in (WORKERS if not small else [2, 16]):
                 nc = n + 7 if w == "len+7" else w
                 for ds in range(delay_seeds):
                     probe.delay_seed = "%s-%s-%s" % (kseed, w, ds)
@@ -228,7 +297,7 @@ def run_gen(spec, R):
                 open(path, "w").write(gen_model.model_yaml(m))
                 open(ipath, "w").write(gen_model.model_yaml(isa_db))
                 gen_case(isa, vocab, path, ipath, mseed, mrng.getrandbits(48), spec["delay_seeds"], probe, R,
-                         target=TARGETS[(spec["shard"] // 2 + k) % len(TARGETS)])
+                         target=TARGETS[(spec["shard"] // 2 + k) % len(TARGETS)], small=bool(spec.get("small")))
                 MachineModel._runtime_cache.pop(path, None)
                 MachineModel._runtime_cache.pop(ipath, None)
         finally:
@@ -296,6 +365,6 @@ def replay(case, R):
             path, ipath = os.path.join(d, "m.yml"), os.path.join(d, "i.yml")
             open(path, "w").write(gen_model.model_yaml(m))
             open(ipath, "w").write(gen_model.model_yaml(isa_db))
-            gen_case(isa, vocab, path, ipath, case["model_seed"], case["kernel_seed"], 2, probe, R, target=case.get("target"))
+            gen_case(isa, vocab, path, ipath, case["model_seed"], case["kernel_seed"], 2, probe, R, target=case.get("target"), small=bool(case.get("small")))
         finally:
             probe.close()
